@@ -14,7 +14,9 @@ for n in "${names[@]}"; do
   if ! git -C $wt apply /verif/seeded/$n/patch.diff 2>/dev/null; then
     echo "$n PATCH-DOES-NOT-APPLY (the library moved on under it)"
   else
-    out=$(./seedrun.sh $wt $id)
+    # a seed whose refuting observation belongs to another property's check names it in meta.json ("regress_check")
+    rc_id=$(python3 -c "import json,sys;print(json.load(open(sys.argv[1])).get('regress_check') or sys.argv[2])" /verif/seeded/$n/meta.json $id)
+    out=$(./seedrun.sh $wt $rc_id)
     case "$out" in
       *"rc=1"*) echo "$n caught: $(echo "$out" | sed 's/.*keys: *//' | cut -c1-160)";;
       *) echo "$n MISSED: $out"; missed=$((missed+1));;
